@@ -200,4 +200,39 @@ theorem server_rings_wellformed (p : Iec.Srv104.Params) (gs : List (String × Li
     (∃ up low, MqInv ((ops.foldl Iec.Srv104.WOp.apply (Iec.Srv104.create p gs)).grp g).lowQ up low) :=
   ⟨(Iec.Srv104.run_hgok p gs hh ops).2 g, ((Iec.Srv104.run_gok p gs hl ops).2 g).1⟩
 
+/-- **in every reachable server state the event transmitted next is the oldest waiting one**: whatever the history, the
+entry `MessageQueue_getNextWaitingASDU` hands to the transmission path of a group is the first waiting entry of the ring in
+FIFO (= enqueue) order, with its own id and octets; it is marked sent, nothing else changes, and the ring stays well-formed -/
+theorem reachable_next_event_is_oldest_waiting (p : Iec.Srv104.Params) (gs : List (String × List (Bool × List Nat)))
+    (hl : 1 ≤ p.lowQ) (ops : List Iec.Srv104.WOp) (g : Nat) :
+    ∃ up low, MqInv ((ops.foldl Iec.Srv104.WOp.apply (Iec.Srv104.create p gs)).grp g).lowQ up low ∧
+      ((ops.foldl Iec.Srv104.WOp.apply (Iec.Srv104.create p gs)).grp g).lowQ.toList = (up ++ low).map Prod.snd ∧
+      match (up ++ low).find? (fun x => x.2.st == 1) with
+      | none => ((ops.foldl Iec.Srv104.WOp.apply (Iec.Srv104.create p gs)).grp g).lowQ.getNextWaiting.2 = none
+      | some x => ((ops.foldl Iec.Srv104.WOp.apply (Iec.Srv104.create p gs)).grp g).lowQ.getNextWaiting.2 =
+          some (x.2.id, x.1, x.2.data) := by
+  obtain ⟨up, low, h⟩ := ((Iec.Srv104.run_gok p gs hl ops).2 g).1
+  refine ⟨up, low, h, toList_eq _ up low h, ?_⟩
+  have := getNextWaiting_refines _ up low h
+  cases hf : (up ++ low).find? (fun x => x.2.st == 1) with
+  | none => rw [hf] at this; simp only at this ⊢; rw [this]
+  | some x => rw [hf] at this; simp only at this ⊢; rw [this.1]
+
+/-- **in every reachable server state the reply transmitted next is the oldest parked one** (the reply ring is a FIFO in
+every reachable state, not only under a hypothesis) -/
+theorem reachable_next_reply_is_oldest (p : Iec.Srv104.Params) (gs : List (String × List (Bool × List Nat)))
+    (hh : 1 ≤ p.highQ) (ops : List Iec.Srv104.WOp) (g : Nat) :
+    ∃ up low, HpInv ((ops.foldl Iec.Srv104.WOp.apply (Iec.Srv104.create p gs)).grp g).highQ up low ∧
+      ((ops.foldl Iec.Srv104.WOp.apply (Iec.Srv104.create p gs)).grp g).highQ.getNext.2 = (HpInv.abs up low).head? := by
+  obtain ⟨up, low, h⟩ := (Iec.Srv104.run_hgok p gs hh ops).2 g
+  refine ⟨up, low, h, ?_⟩
+  cases up with
+  | nil =>
+    have := h.lowup rfl; subst this
+    have hc : ((ops.foldl Iec.Srv104.WOp.apply (Iec.Srv104.create p gs)).grp g).highQ.count = 0 := by simpa using h.count
+    simp [HpQueue.getNext, hc, HpInv.abs]
+  | cons u0 rest =>
+    obtain ⟨q', he, _, _⟩ := getNext_refines _ u0 rest low h
+    rw [he]; simp [HpInv.abs]
+
 end Iec.Props.C13
